@@ -11,21 +11,27 @@ Import ListNotations.
    behaviour of the field functions (value / None / raise / wrong shape on the i-th invocation) and
    every failure schedule (an exception before any statement, a crash inside the tiling or the reset
    loop): the objects after the call are the objects before the call, and the same call on the
-   resulting objects yields the identical outcome, value, invocation trace and state. *)
+   resulting objects yields the identical outcome, value, invocation trace and state.
+   `renorm` is what Rotation.from_quat does to a stored quaternion when a path is tiled (arbitrary
+   function); only a wrapper whose finally keeps a slice of the tiled orientation needs the stored
+   quaternions to be fixed points of it -- the wrapper translated from the current source (it puts the
+   original path objects back) makes that hypothesis vacuous. *)
 Theorem C08_level2_state_restored :
-  forall (V Q A GV Val : Type) (dV : V) (dQ : Q) (key_of : A -> option nat) (dim_ok exc_ok : A -> bool)
+  forall (V Q A GV Val : Type) (dV : V) (dQ : Q) (renorm : Q -> Q) (key_of : A -> option nat)
+         (dim_ok exc_ok : A -> bool)
          (pix_shape : A -> list nat) (post : list GV -> Val) (F : nat -> nat -> ginput V Q -> gres GV)
          (c : call) (sch : sched) (cnt : nat) (st : list (obj V Q A)),
     wf_store V Q A st ->
-    r_store V Q A Val (getBH_level2 V Q A GV Val dV dQ key_of dim_ok exc_ok pix_shape post F
+    (gen_wrapper = WFinallyTrim -> fix_store V Q A renorm st) ->
+    r_store V Q A Val (getBH_level2 V Q A GV Val dV dQ renorm key_of dim_ok exc_ok pix_shape post F
                                     gen_wrapper gen_prog c sch cnt st) = st /\
-    getBH_level2 V Q A GV Val dV dQ key_of dim_ok exc_ok pix_shape post F gen_wrapper gen_prog c sch cnt
-      (r_store V Q A Val (getBH_level2 V Q A GV Val dV dQ key_of dim_ok exc_ok pix_shape post F
+    getBH_level2 V Q A GV Val dV dQ renorm key_of dim_ok exc_ok pix_shape post F gen_wrapper gen_prog c sch cnt
+      (r_store V Q A Val (getBH_level2 V Q A GV Val dV dQ renorm key_of dim_ok exc_ok pix_shape post F
                                        gen_wrapper gen_prog c sch cnt st))
-    = getBH_level2 V Q A GV Val dV dQ key_of dim_ok exc_ok pix_shape post F gen_wrapper gen_prog c sch cnt st.
+    = getBH_level2 V Q A GV Val dV dQ renorm key_of dim_ok exc_ok pix_shape post F gen_wrapper gen_prog c sch cnt st.
 Proof.
-  exact (fun V Q A GV Val dV dQ key_of dim_ok exc_ok pix_shape post F c sch cnt st =>
-           restored_and_repeat V Q A GV Val dV dQ key_of dim_ok exc_ok pix_shape post F
+  exact (fun V Q A GV Val dV dQ renorm key_of dim_ok exc_ok pix_shape post F c sch cnt st =>
+           restored_and_repeat V Q A GV Val dV dQ renorm key_of dim_ok exc_ok pix_shape post F
                                gen_wrapper gen_prog c sch cnt st (eq_refl true)).
 Qed.
 Print Assumptions C08_level2_state_restored.
@@ -33,17 +39,18 @@ Print Assumptions C08_level2_state_restored.
 (* the body alone (whatever the wrapper does): attributes are never written and the old paths stay
    prefixes of the new ones at every exit *)
 Theorem C08_body_only_extends_paths :
-  forall (V Q A GV Val : Type) (dV : V) (dQ : Q) (key_of : A -> option nat) (dim_ok exc_ok : A -> bool)
+  forall (V Q A GV Val : Type) (dV : V) (dQ : Q) (renorm : Q -> Q) (key_of : A -> option nat)
+         (dim_ok exc_ok : A -> bool)
          (pix_shape : A -> list nat) (post : list GV -> Val) (F : nat -> nat -> ginput V Q -> gres GV)
          (c : call) (sch : sched) (cnt : nat) (st : list (obj V Q A)),
     wf_store V Q A st ->
-    let st' := r_store V Q A Val (getBH_level2 V Q A GV Val dV dQ key_of dim_ok exc_ok pix_shape post F
+    let st' := r_store V Q A Val (getBH_level2 V Q A GV Val dV dQ renorm key_of dim_ok exc_ok pix_shape post F
                                                WPlain gen_prog c sch cnt st) in
     length st' = length st /\
-    forall i o0, nth_error st i = Some o0 -> exists o, nth_error st' i = Some o /\ ext V Q A o0 o.
+    forall i o0, nth_error st i = Some o0 -> exists o, nth_error st' i = Some o /\ ext V Q A renorm o0 o.
 Proof.
-  exact (fun V Q A GV Val dV dQ key_of dim_ok exc_ok pix_shape post F c sch cnt st =>
-           plain_only_extends V Q A GV Val dV dQ key_of dim_ok exc_ok pix_shape post F
+  exact (fun V Q A GV Val dV dQ renorm key_of dim_ok exc_ok pix_shape post F c sch cnt st =>
+           plain_only_extends V Q A GV Val dV dQ renorm key_of dim_ok exc_ok pix_shape post F
                               gen_wrapper gen_prog c sch cnt st (eq_refl true)).
 Qed.
 Print Assumptions C08_body_only_extends_paths.
@@ -65,6 +72,19 @@ Theorem C08_prefix_field_func_faults_refuted :
     <> [w_src (Some 3); w_sens].
 Proof. exact prefix_refuted_field_func_faults. Qed.
 Print Assumptions C08_prefix_field_func_faults_refuted.
+
+(* the finding repaired by commit e5d1a5c: if re-normalisation changes a stored quaternion, the trimming
+   finally (the code between 7b53805 and e5d1a5c) returns normally with that quaternion changed; the
+   restoring finally gives the store back *)
+Theorem C08_trimming_finally_renorm_refuted :
+  r_out XV XQ xattr (list nat) (xrun_r rn_bump WFinallyTrim prog_trim w_call no_sched [] 0 [w_src (Some 3); w_sens])
+    = Returned (list nat) (Some [3]) /\
+  r_store XV XQ xattr (list nat) (xrun_r rn_bump WFinallyTrim prog_trim w_call no_sched [] 0 [w_src (Some 3); w_sens])
+    <> [w_src (Some 3); w_sens] /\
+  r_store XV XQ xattr (list nat) (xrun_r rn_bump WFinallyRestore prog_restore w_call no_sched [] 0 [w_src (Some 3); w_sens])
+    = [w_src (Some 3); w_sens].
+Proof. exact trimming_finally_renorm_refuted. Qed.
+Print Assumptions C08_trimming_finally_renorm_refuted.
 
 (* the static acceptance check separates the shapes: the old statement list is rejected under every
    wrapper, each repaired body is accepted only with the finally that matches what it records *)
